@@ -8,6 +8,10 @@ checks = {
    note="Trusted: govc's translation (ints as 64-bit vectors for int/uint/uintptr, IEEE semantics of SMT-LIB FP, float->int = fp.to_sbv/ubv RTZ with unspecified out-of-range result), math.Round = roundToIntegral RNA, strconv.ParseInt/ParseUint/ParseFloat/ParseBool/Atoi contracts (the number a text denotes is an uninterpreted function of the text), reflect kind facts for the 15 source types, the SMT solvers. 32-bit int/uint targets are not re-verified.",
    ref="5 C02"),
 }
+checks["C03"] = dict(
+   text="Proof, for all slices/maps over an abstract element type, all pure callbacks and all integer arguments, that 41 collection helpers of fp.go return the value their definition prescribes (index-wise for sequence results; membership/value-wise for map results; filter-like results through ghost index maps that pin the result down to exactly the kept elements in order), that results documented as new are freshly allocated, that inputs are unchanged (every store is proved to hit storage allocated by the call), and that no index, slice bound, nil-map write or division can panic for any count/size/hop. Loops carry inductive invariants; callers (Reject, Tail, Flatten) use callee contracts only.",
+   note="Trusted: govc's translation (mathematical integers: overflow of len sums is not modelled; Numeric T is modelled as an integer type; floats excluded), callbacks are deterministic and heap-neutral, element == is a total equivalence (no NaN / non-comparable dynamic types), map iteration visits each key present at loop entry exactly once, append growth model, SMT solvers. SplitEvery and GroupBy are verified for safety, freshness and their guarded corner only (their grouping is not specified); PMap belongs to C16 (n/a).",
+   ref="5 C03")
 na = {
  "C07": "quantifies over producer/consumer/loader interleavings and includes liveness (nothing stranded, wake-ups not lost); no per-function contract expresses cross-goroutine exactly-once hand-over or eventual loading (DESIGN.md 6).",
  "C09": "every clause is about goroutine scheduling, timers and recovery from panics in other goroutines; the named defect is a lost wake-up (liveness under a fault) (DESIGN.md 6).",
